@@ -249,6 +249,8 @@ class Ctx:
         self.posts = []        # (label, z3 formula | bool)
         self.witnesses = {}    # name -> z3 formula | bool
         self.inputs = {}       # name -> z3 const (sym) / value (conc)
+        self.ranges = {}       # name -> declared range (sym): used to sample parameter values for the cover check
+        self.solved = set()    # names of stub outputs determined by equations (left free when the cover check samples parameters)
         self.covers = []
         self.used_stubs = []
         self.notes = []
@@ -272,12 +274,15 @@ class Ctx:
         if self.sym:
             v = z3.Real(name)
             self.inputs[name] = v
+            self.ranges[name] = ("real", lo, hi, pos, nonzero, sample)
             if lo is not None:
                 self._assume_t(v >= lift(lo))
             if hi is not None:
                 self._assume_t(v <= lift(hi))
-            if pos:
+            if pos or (lo is not None and not is_sym(lo) and lo > 0):
                 self._assume_t(v > 0)
+                if PathCtx.cur is not None:
+                    PathCtx.cur.known_pos.add(name)
             if nonzero:
                 self._assume_t(v != 0)
             return Sym(v)
@@ -302,6 +307,7 @@ class Ctx:
         if self.sym:
             v = z3.Int(name)
             self.inputs[name] = v
+            self.ranges[name] = ("int", lo, hi, False, False, sample)
             if lo is not None:
                 self._assume_t(v >= lift(lo))
             if hi is not None:
